@@ -330,7 +330,20 @@ Proof.
 Qed.
 
 (** ---------- MAIL ---------- *)
-Lemma h_from_spec s a arg len evs h s' : R s a -> (comstate s = 8%N \/ comstate s = 16%N) ->
+Lemma subm_gate_spec s al s1 pre : subm_gate o s = (al, s1, pre) -> Irel (relayclient s) ->
+  comstate s1 = comstate s /\ mailfrom s1 = mailfrom s /\ rcpts s1 = rcpts s
+  /\ rcptcount s1 = rcptcount s /\ goodrcpt s1 = goodrcpt s /\ Irel (relayclient s1)
+  /\ (pre = [] \/ pre = [Reply 421])
+  /\ (pre = [] -> al = true -> o_submission o = true -> (0 <? o_relay o)%Z = true \/ authed s = true).
+Proof.
+  unfold subm_gate. intros H HI. destruct (o_submission o).
+  - destruct (relay_decide_spec _ _ _ _ _ H HI) as (E1 & E2 & E3 & E4 & E5 & HI1 & Hpre & Hent).
+    repeat split; auto.
+  - inversion H; subst. repeat split; auto. discriminate.
+Qed.
+
+(** MAIL FROM; on the submission port it passes only the gate of is_authenticated() *)
+Lemma h_from_spec s a arg len evs h s' : R s a -> a_auth a = authed s -> (comstate s = 8%N \/ comstate s = 16%N) ->
   h_from o s arg len = (evs, h, s') ->
   exists a', trace_run o evs a = Some a' /\ queue_run o evs QIdle = Some QIdle
     /\ Irel (relayclient s')
@@ -340,7 +353,7 @@ Lemma h_from_spec s a arg len evs h s' : R s a -> (comstate s = 8%N \/ comstate 
        | _ => Rc (comstate s') (mailfrom s') (rcpts s') (rcptcount s') (goodrcpt s') a'
        end.
 Proof.
-  intros [HR HI] Hc H. unfold h_from in H.
+  intros [HR HI] HA Hc H. unfold h_from in H.
   destruct HR as (Hn & Hl & Hg & Hph & Htx).
   assert (Hp : a_phase a = PHelo).
   { destruct (a_phase a); try reflexivity; destruct Hc as [E|E]; rewrite E in Hph; try discriminate;
@@ -352,30 +365,46 @@ Proof.
   assert (HRc : Rc (comstate sc) (mailfrom sc) (rcpts sc) (rcptcount sc) (goodrcpt sc) a).
   { unfold sc. cbn [comstate mailfrom rcpts rcptcount goodrcpt]. unfold Rc. rewrite Hp, Etx. auto 10. }
   assert (HIc : Irel (relayclient sc)) by exact HI.
-  assert (KT : Irel (relayclient (tarpit sc))
-               /\ Rc (comstate (tarpit sc)) (mailfrom (tarpit sc)) (rcpts (tarpit sc)) (rcptcount (tarpit sc)) (goodrcpt (tarpit sc)) a).
-  { destruct (data_pending_core sc) as (F1 & F2 & F3 & F4 & F5 & _ & _ & F8). unfold tarpit.
-    now rewrite F1, F2, F3, F4, F5, F8. }
-  assert (K : forall e c, e = [] \/ e = [Reply c] ->
-            exists a', trace_run o e a = Some a' /\ queue_run o e QIdle = Some QIdle /\ Irel (relayclient sc)
-              /\ Rc (comstate sc) (mailfrom sc) (rcpts sc) (rcptcount sc) (goodrcpt sc) a').
-  { intros e c [->| ->]; exists a; auto. }
-  destruct (o_addr o false arg) as [| | |addr more cls].
-  - inversion H; subst. apply (K [] 0%N); auto.
-  - inversion H; subst. exists a. split; [reflexivity|]. split; [reflexivity|]. exact KT.
-  - inversion H; subst. exists a. split; [reflexivity|]. split; [reflexivity|]. exact KT.
-  - destruct (if esmtp sc then None else more).
-    { inversion H; subst. apply (K [] 0%N); auto. }
+  assert (HAc : authed sc = authed s) by reflexivity.
+  (* everything that leaves the (cleared) transaction state alone *)
+  assert (K : forall (s1 : sstate) e c, comstate s1 = comstate sc -> mailfrom s1 = mailfrom sc -> rcpts s1 = rcpts sc ->
+            rcptcount s1 = rcptcount sc -> goodrcpt s1 = goodrcpt sc -> Irel (relayclient s1) -> e = [] \/ e = [Reply c] ->
+            exists a', trace_run o e a = Some a' /\ queue_run o e QIdle = Some QIdle /\ Irel (relayclient s1)
+              /\ Rc (comstate s1) (mailfrom s1) (rcpts s1) (rcptcount s1) (goodrcpt s1) a').
+  { intros s1 e c E1 E2 E3 E4 E5 HI1 [->| ->]; exists a; rewrite E1, E2, E3, E4, E5; auto. }
+  assert (KT : forall (s1 : sstate) e c, comstate s1 = comstate sc -> mailfrom s1 = mailfrom sc -> rcpts s1 = rcpts sc ->
+            rcptcount s1 = rcptcount sc -> goodrcpt s1 = goodrcpt sc -> Irel (relayclient s1) -> e = [] \/ e = [Reply c] ->
+            exists a', trace_run o e a = Some a' /\ queue_run o e QIdle = Some QIdle /\ Irel (relayclient (tarpit s1))
+              /\ Rc (comstate (tarpit s1)) (mailfrom (tarpit s1)) (rcpts (tarpit s1)) (rcptcount (tarpit s1)) (goodrcpt (tarpit s1)) a').
+  { intros s1 e c E1 E2 E3 E4 E5 HI1 He.
+    destruct (data_pending_core s1) as (F1 & F2 & F3 & F4 & F5 & _ & _ & F8). unfold tarpit.
+    rewrite F1, F2, F3, F4, F5, F8. apply (K s1 e c); auto. }
+  destruct (o_addr o false arg) as [| | |addr more cls]; [inversion H; subst; apply (K sc [] 0%N); auto| | |];
+       destruct (subm_gate o sc) as [[al s1] pre] eqn:Eg;
+       destruct (subm_gate_spec _ _ _ _ Eg HIc) as (E1 & E2 & E3 & E4 & E5 & HI1 & Hpre & Hent);
+       (destruct pre as [|p pre'];
+        [|inversion H; subst evs h s'; destruct Hpre as [E|E]; [discriminate|]; inversion E; subst; apply (K s1 [Reply 421] 421%N); auto]);
+       (destruct (negb al) eqn:Eal; [inversion H; subst evs h s'; apply (K s1 [Reply 550] 550%N); auto|]).
+  - inversion H; subst evs h s'. apply (KT s1 [Reply 501] 501%N); auto.
+  - inversion H; subst evs h s'. apply (KT s1 [Reply 550] 550%N); auto.
+  - apply negb_false_iff in Eal.
+    destruct (if esmtp s1 then None else more).
+    { inversion H; subst evs h s'. apply (K s1 [] 0%N); auto. }
     destruct (match more with Some m => o_ext o m | None => Ext_ok 0 0 None end) as [tb bonus body8| |].
-    2:{ inversion H; subst. apply (K [] 0%N); auto. }
-    2:{ inversion H; subst. apply (K [] 0%N); auto. }
-    destruct (Nat.ltb (CMD_LINE_MAX + bonus) len). { inversion H; subst. apply (K [] 0%N); auto. }
+    2:{ inversion H; subst evs h s'. apply (K s1 [] 0%N); auto. }
+    2:{ inversion H; subst evs h s'. apply (K s1 [] 0%N); auto. }
+    destruct (Nat.ltb (CMD_LINE_MAX + bonus) len). { inversion H; subst evs h s'. apply (K s1 [] 0%N); auto. }
     destruct (negb (N.eqb (o_databytes o) 0) && N.ltb (o_databytes o) tb).
-    { inversion H; subst. apply (K [Reply 452] 452%N); auto. }
+    { inversion H; subst evs h s'. apply (K s1 [Reply 452] 452%N); auto. }
     inversion H; subst evs h s'. clear H.
-    eexists. split; [cbn [trace_run trace_step]; rewrite Hp; reflexivity|].
+    (* the gate of the submission port is what the specification demands *)
+    assert (Hgate : o_submission o && negb (0 <? o_relay o)%Z && negb (a_auth a) = false).
+    { destruct (o_submission o) eqn:Es; [|reflexivity]. cbn [andb].
+      destruct (Hent eq_refl Eal eq_refl) as [Hr|Hr]; [rewrite Hr; reflexivity|].
+      rewrite HA, <- HAc, Hr. apply andb_false_r. }
+    eexists. split; [cbn [trace_run trace_step]; rewrite Hp, Hgate; reflexivity|].
     split; [reflexivity|]. cbn [comstate mailfrom rcpts rcptcount goodrcpt relayclient].
-    split; [exact HI|]. unfold sc. cbn [rcpts rcptcount].
+    split; [exact HI1|]. rewrite E3, E4. unfold sc. cbn [rcpts rcptcount].
     unfold Rc. cbn [a_stored a_phase a_txn]. rewrite Hrc in *. simpl in Hl.
     repeat split; auto; try lia.
 Qed.
@@ -428,7 +457,8 @@ Lemma hdr_loop_reject fuel : forall dc r l msg sz hops hf seen code lr r',
 Proof.
   induction fuel as [|f IH]; intros dc r l msg sz hops hf seen code lr r' H; cbn [hdr_loop] in H; [discriminate|].
   destruct (is_dot l || N.ltb (maxbytes o) sz || Nat.eqb (length l) 0 || Nat.ltb MAXHOPS hops).
-  - destruct (d_chk dc && (N.eqb (N.land hf 1) 0 || N.eqb (N.land hf 2) 0)). { inversion H; auto. }
+  - match type of H with context [if ?c then (D_wfail l, r) else _] => destruct c end; [discriminate|].
+    destruct (negb (d_subm dc) && d_chk dc && (N.eqb (N.land hf 1) 0 || N.eqb (N.land hf 2) 0)). { inversion H; auto. }
     destruct l as [|b t].
     + destruct (d_wfail dc); [discriminate|]. destruct (dread r []) as [[d0|l'] r1] eqn:Ed.
       * inversion H; subst. unfold dread in Ed. destruct (net_read r) as [it rr]. destruct it; inversion Ed.
@@ -685,7 +715,7 @@ Proof.
     assert (Hc : comstate s = 8%N \/ comstate s = 16%N).
     { destruct Hcs as [E|[E|[E|[E|E]]]]; rewrite E in Emask; auto; exfalso; apply Emask; reflexivity. }
     destruct (h_from o s (skipn (length name) l) (length l)) as [[e h'] s'] eqn:Eh.
-    destruct (h_from_spec _ _ _ _ _ _ _ HRI Hc Eh) as (a' & Htr & Hqu & HI' & Hres).
+    destruct (h_from_spec _ _ _ _ _ _ _ HRI HA Hc Eh) as (a' & Htr & Hqu & HI' & Hres).
     destruct h'; inversion H; subst; try contradiction;
       exists a'; (split; [exact Htr|]); (split; [exact HI'|]);
       try (split; [exact Hqu|exact Hres]); try (split; [right; exact Hqu|exact Hres]).
@@ -864,6 +894,20 @@ Proof.
   destruct (a_auth a) eqn:Eau; [right; now rewrite <- Hau|]. simpl in Ht. congruence.
 Qed.
 
+(** the submission port takes mail only from entitled clients: MAIL FROM is accepted there only if the relay list matched
+    the client or an AUTH succeeded earlier on the same connection *)
+Theorem submission_mail_needs_entitlement chunks pre f post :
+  o_submission o = true -> run_session o chunks = pre ++ Note (NMail f) :: post -> (0 < o_relay o)%Z \/ has_auth pre = true.
+Proof.
+  intros Hs E. destruct (session_trace_ok chunks) as [Ht _]. unfold trace_ok in Ht. rewrite E in Ht.
+  destruct (trace_run_prefix pre _ a_init Ht) as (a & Ha).
+  rewrite trace_run_app, Ha in Ht. cbn [trace_run trace_step] in Ht.
+  pose proof (trace_run_auth o _ _ _ Ha) as Hau. cbn [a_auth a_init orb] in Hau.
+  destruct (a_phase a); try congruence. rewrite Hs in Ht. cbn [andb] in Ht.
+  destruct (Z.ltb 0 (o_relay o)) eqn:Er; [apply Z.ltb_lt in Er; left; exact Er|].
+  destruct (a_auth a) eqn:Eau; [right; now rewrite <- Hau|]. simpl in Ht. congruence.
+Qed.
+
 (** AUTH is accepted only in ESMTP mode: the last greeting accepted before it was an EHLO (C09) *)
 Theorem auth_needs_ehlo chunks pre n post :
   run_session o chunks = pre ++ Note (NAuth n) :: post -> esm_run pre false = true.
@@ -905,7 +949,9 @@ Theorem mail_size_checked s arg len evs s' : h_from o s arg len = (evs, H0, s') 
   o_databytes o = 0%N \/ (thisbytes s' <= o_databytes o)%N.
 Proof.
   unfold h_from. intros H.
-  destruct (o_addr o false arg) as [| | |addr more cls]; try discriminate.
+  destruct (o_addr o false arg) as [| | |addr more cls]; try discriminate;
+    (match type of H with context [subm_gate o ?sc] => destruct (subm_gate o sc) as [[al s1] pre] end);
+    (destruct pre; [|discriminate]); (destruct (negb al); [discriminate|]); try discriminate.
   match type of H with context [if ?b then None else more] => destruct (if b then None else more) end; try discriminate.
   destruct (match more with Some m => o_ext o m | None => Ext_ok 0 0 None end) as [tb bonus body8| |]; try discriminate.
   destruct (Nat.ltb (CMD_LINE_MAX + bonus) len); try discriminate.
